@@ -12,14 +12,14 @@ from ..axis import suffix_axis
 
 DECIDES = ('for the dict formats (JSON/YAML/cfg share them): every key the importer requires is written by the matching exporter, nested '
            'control_points.points/weights included, and each key is written from and read into the same property of the same direction; type '
-           'maps of trim/container curves pair export_dict_X with import_dict_X for every type the exporter emits (AG1); for smesh/vmesh: the '
+           'maps of trim/container curves pair export_dict_X with import_dict_X for every type the exporter emits (AG1), and every membership-guarded lookup uses the key that was tested, so each element is dispatched on its own type (GK1); for smesh/vmesh: the '
            'header records (dimension, degrees, sizes, one knot vector per direction in direction order) are written and read at the same '
            'record/field positions and the points start after them (AG2); writer and reader permutations compose to the identity per slab - the '
            'file layout produced by the writer is exactly what the reader\'s flip expects, slab loops cover every w-slab, and the list passed to '
            'set_ctrlpts has the declared sizes (LY1-LY3 by abstract interpretation through writer -> file -> reader); the weight form goes '
            'weighted -> (x,y,z,w) in the writer and (x,y,z,w) -> weighted in the reader through an inverse converter pair (WV1); text/CSV: '
            'row = u, column = v with canonical stride on export and (points, size_u, size_v) from (line count, column count) on import, '
-           'separators decided by a same-direction comparison (LY1, TX1, AX5); the 2-D control point file helpers pass sizes that match the '
+           'separators decided by a same-direction comparison (LY1, TX1, AX5); the 2-D control point file helpers apply the helper they are named after to the array they read (FH1) and pass sizes that match the '
            'array they save (LY3f).')
 NOT_DECIDED = 'equality up to printed precision, float formatting/parsing, third-party serialisers (json/yaml/libconf) and file I/O; freeform/evaluated data.'
 TECHNIQUE = 'writer/reader key-set and record-table agreement, abstract interpretation of layouts through the file, weight-form typestate'
@@ -40,9 +40,31 @@ def check(m, run):
     text_formats(m, run)
     file_helpers(m, run)
     wrappers(m, run)
+    guard_keys(m, run)
     run.floor('AG1.keys', 25, 'mandatory keys of the five dict pairs')
     run.floor('AG2.record-table', 14, 'header fields of smesh (7) and vmesh (10)')
     run.floor('WV1.weight-form', 4, 'two writers, two readers')
+
+
+def guard_keys(m, run):
+    """GK1: a lookup M[k] guarded by `if k' in M` uses the key it tested (k == k'): the type maps dispatch each element on its own type and
+    optional fields are read under the key that was found present"""
+    n = 0
+    for fi in sorted(m.functions_in('_exchange'), key=lambda f: f.key):
+        for st in walk_no_nested(fi.node):
+            if isinstance(st, ast.If) and isinstance(st.test, ast.Compare) and len(st.test.ops) == 1 and isinstance(st.test.ops[0], ast.In):
+                M, A = norm(st.test.comparators[0]), norm(st.test.left)
+                for b in st.body:
+                    for x in ast.walk(b):
+                        if isinstance(x, ast.Subscript) and norm(x.value) == M and isinstance(x.ctx, ast.Load):
+                            n += 1
+                            ok = norm(x.slice) == A
+                            run.ob('GK1.guard-key-is-lookup-key', '%s :: %s[%s]' % (fi.key, M, norm(x.slice)), ok,
+                                   'looked up under the tested key' if ok else
+                                   'the presence test is on `%s` but the lookup uses `%s`: the guard does not protect this lookup (wrong branch / KeyError for the other key)'
+                                   % (A, norm(x.slice)), site(fi, x))
+    run.floor('GK1.guard-key-is-lookup-key', 20, 'optional fields and type maps of the dict importers/exporters')
+    return n
 
 
 # ---------------------------------------------------------------------------------------------- AG1
@@ -463,6 +485,14 @@ def file_helpers(m, run):
         if isinstance(arr, ast.Name):
             ds = [n.value for n in walk_no_nested(fi.node) if isinstance(n, ast.Assign) and isinstance(n.targets[0], ast.Name) and n.targets[0].id == arr.id]
             flipped = bool(ds) and isinstance(ds[0], ast.Call) and norm(ds[0].func) == 'flip_ctrlpts2d'
+        # the file variant applies the helper it is named after to the array it read, and saves that helper's result
+        base = name[:-5]
+        ds = [n.value for n in walk_no_nested(fi.node) if isinstance(arr, ast.Name) and isinstance(n, ast.Assign) and isinstance(n.targets[0], ast.Name)
+              and n.targets[0].id == arr.id and isinstance(n.value, ast.Call)]
+        okh = len(ds) == 1 and isinstance(ds[0].func, ast.Name) and ds[0].func.id == base and len(ds[0].args) >= 1 and norm(ds[0].args[0]) == arr0
+        run.ob('FH1.file-variant-applies-its-helper', fi.key, okh, 'saves %s(%s)' % (base, arr0) if okh else
+               'the saved array is `%s`: %s must save the result of %s applied to the array it read (a different converter, e.g. the inverse one, '
+               'silently writes other data)' % (norm(ds[0])[:50] if ds else norm(arr), name, base), site(fi, c))
         passed = [norm(a) for a in c.args[1:3]]
         want = [sv, su] if flipped else [su, sv]
         run.ob('LY3f.saved-sizes', fi.key, passed == want,
